@@ -33,7 +33,7 @@ ANCHORS = ["dagrt.codegen.transform:eliminate_self_dependencies", "dagrt.codegen
            "dagrt.codegen.transform:isolate_function_calls", "dagrt.codegen.transform:expand_IfThenElse",
            "dagrt.codegen.transform:ExprIfThenElseExpander.map_if",
            "dagrt.codegen.transform:SelfDependencyEliminator.map_statement"]
-MIN_NONTRIVIAL = {"quick": 1200, "thorough": 15000}
+MIN_NONTRIVIAL = {"quick": 1200, "thorough": 31499}
 REQUIRED_COUNTERS = {"quick": ["passes_applied", "valuations_compared", "introduced_names_checked",
                                "trees_from_real_lowering", "handbuilt_trees"],
                      "thorough": ["passes_applied", "valuations_compared", "introduced_names_checked",
@@ -44,9 +44,9 @@ PASSES = ["selfdep", "args", "calls", "ifexpr", "pipeline"]
 
 
 def plan(tier, seed):
-    per = 60 if tier == "quick" else 700
+    per = 60 if tier == "quick" else 2100
     sh = [{"kind": "prog", "seed": f"C07:{seed}:{k}", "count": per} for k in range(8)]
-    per2 = 150 if tier == "quick" else 1600
+    per2 = 150 if tier == "quick" else 4800
     sh += [{"kind": "hand", "seed": f"C07:{seed}:h{k}", "count": per2} for k in range(8)]
     return sh
 
